@@ -9,6 +9,7 @@ import (
 	"gitee.com/Trisia/gotlcp/dtlcp"
 	"gitee.com/Trisia/gotlcp/vs"
 
+	"verifsim/ref"
 	"verifsim/simnet"
 )
 
@@ -33,6 +34,9 @@ type c16Params struct {
 	// OuterWindow != 0 (the server receives): the server's listener configuration has this ReplayWindow (-1: unset)
 	// and hands out, through GetConfigForClient, the configuration with Window - the one in force
 	OuterWindow int `json:"outer_window,omitempty"`
+	// Resumed: the connection resumes a session made by an earlier connection; forgery kind 11 is then a record
+	// protected by a third party under the keys that an all-zero master secret and the (public) hello randoms give
+	Resumed bool `json:"resumed,omitempty"`
 }
 
 func (c16) ID() string    { return "C16" }
@@ -73,6 +77,7 @@ func drawC16(src *vs.Src) *c16Params {
 	if p.Sender == 0 && src.Bool(1, 3) {
 		p.OuterWindow = pickInt(src, []int{-1, 1, 32, 40, 64, 128})
 	}
+	p.Resumed = src.Bool(1, 4)
 	p.Boundary = src.Bool(1, 2)
 	if p.Boundary {
 		p.N = 70 + src.Intn(110)
@@ -100,7 +105,7 @@ func drawC16(src *vs.Src) *c16Params {
 			switch src.Intn(8) {
 			case 0:
 				p.Deliver = append(p.Deliver, -(src.Intn(p.N) + 1))
-				p.ForgeHow = append(p.ForgeHow, src.Intn(11)) // 10: one of the receiver's OWN records, sent back to it
+				p.ForgeHow = append(p.ForgeHow, src.Intn(12)) // 10: one of the receiver's OWN records, sent back to it; 11: see Resumed
 			default:
 				// mostly increasing with local disorder and repeats
 				k := i * p.N / m
@@ -160,13 +165,36 @@ func (c16) Run(c *Case, src *vs.Src) *Result {
 		wclass = "win>64"
 	}
 	sigp := fmt.Sprintf("C16 %s %s", p.API, wclass)
-	w := NewWorld(c.Seed, src)
-	w.K.MaxElapsed = 120 * time.Second
-	env := NewEnv(w)
 	cc := &EPConf{Suites: []uint16{p.Suite}, ServerName: "server.test", ReplayWindow: p.Window}
 	sc := &EPConf{Suites: []uint16{p.Suite}, Certs: []string{"server_sig", "server_enc"}, ReplayWindow: p.Window}
 	if p.OuterWindow != 0 {
 		sc.Clone, sc.OuterWindow = 2, p.OuterWindow
+	}
+	var resumedCaches [2]dtlcp.SessionCache
+	if p.Resumed {
+		// the connection that makes the session (fault-free)
+		cc.Cache, sc.Cache = "c", "s"
+		cacheC, cacheS := dtlcp.NewLRUSessionCache(4), dtlcp.NewLRUSessionCache(4)
+		w0 := NewWorld(c.Seed+1, src)
+		w0.K.MaxElapsed = 60 * time.Second
+		env0 := NewEnv(w0)
+		env0.DCaches["c"], env0.DCaches["s"] = cacheC, cacheS
+		pair0 := NewPair(DTLCP, env0, cc, sc, "c0", "s0", "client:1", "server:443")
+		out0 := &HSOut{}
+		SpawnHandshakeEcho(w0, pair0, EchoOpts{}, out0, "")
+		reason0, _ := w0.Run()
+		w0.Finish(r, sigp)
+		if reason0 != vs.Done || out0.CErr != nil || out0.SErr != nil {
+			r.Violate("setup", sigp+" setup", "the connection that creates the session failed: %s %v %v", reason0, out0.CErr, out0.SErr)
+			return r
+		}
+		resumedCaches = [2]dtlcp.SessionCache{cacheC, cacheS}
+	}
+	w := NewWorld(c.Seed, src)
+	w.K.MaxElapsed = 120 * time.Second
+	env := NewEnv(w)
+	if p.Resumed {
+		env.DCaches["c"], env.DCaches["s"] = resumedCaches[0], resumedCaches[1]
 	}
 	pair := NewPair(DTLCP, env, cc, sc, "c", "s", "client:1", "server:443")
 	sender, receiver := pair.DC, pair.DS
@@ -239,6 +267,11 @@ func (c16) Run(c *Case, src *vs.Src) *Result {
 				data = c16Forge(held[i].Data, how, k)
 				if how == 10 && len(heldOwn) > 0 {
 					data = heldOwn[k%len(heldOwn)].Data
+				}
+				if how == 11 && p.Resumed {
+					if _, _, cr, sr := c10Hellos(true, pair.WireUnits(true)); len(cr) == 32 && len(sr) == 32 {
+						data = c16ZeroMasterRecord(p.Suite, p.Sender == 0, cr, sr, uint64(5000+k))
+					}
 				}
 			}
 			if p.Glue && d < 0 && how <= 4 && k+1 < len(p.Deliver) && p.Deliver[k+1] >= 0 && p.Deliver[k+1] < len(held) {
@@ -493,4 +526,23 @@ func c16WindowModel(src *vs.Src, size int) string {
 		}
 	}
 	return ""
+}
+
+// c16ZeroMasterRecord: an application record as a third party can build it who assumes that the master secret is 48
+// zero bytes (the hello randoms are public): authentic only if the connection's keys really come from such a secret.
+func c16ZeroMasterRecord(suite uint16, fromClient bool, cr, sr []byte, seq uint64) []byte {
+	k := ref.KeyBlock(suite, make([]byte, 48), cr, sr)
+	prot := ref.NewProtect(suite, k.ServerKey, k.ServerIV, k.ServerMAC)
+	if fromClient {
+		prot = ref.NewProtect(suite, k.ClientKey, k.ClientIV, k.ClientMAC)
+	}
+	payload := c16Payload(int(seq))
+	binary.BigEndian.PutUint32(payload, 0xC16C16C3)
+	sb := ref.SeqBytes(true, 1, seq)
+	explicit := sb[:]
+	if !prot.IsGCM() {
+		explicit = make([]byte, 16)
+		copy(explicit, sb[:])
+	}
+	return ref.BuildRecord(true, ref.RecAppData, 0x0101, 1, seq, prot.Seal(sb, ref.RecAppData, 0x0101, payload, explicit))
 }
